@@ -2,7 +2,7 @@
 import re
 
 from ..mir import Callee, last_seg, loc, op_int, op_place
-from .common import gates_of_value, returns_variant, ok_some_blocks
+from .common import gates_of_value, returns_variant, ok_some_blocks, const_cmp_of_switch
 
 EXPLANATION = (
     "F1 every forward of a client datagram (server association task) / every accepting return (client datagram decoder) is dominated "
@@ -369,6 +369,39 @@ def run(ctx):
         verdict = any(s["k"] == "assign" and not s["p"][1] and s["rv"]["k"] == "bin" and s["rv"]["op"] == "Ne" and
                       (s["p"][0] == 0 or 0 in b.slice_fwd([s["p"][0]])[0]) for blk in b.rpo() for s in b.stmts(blk))
         ctx.ob("F4", b.defp, "verdict-is-bit-newly-set", where, verdict, "returns old != new", ordinal=False)
+        # the window is moved forward block by block: what is forgotten are the blocks *between* the old head's block and the new one, none when
+        # both lie in the same block. A clearing that is not an iteration over that difference (a range fill, a memset) must be guarded by the
+        # difference being non-zero - an empty difference expressed as the wrapped range `current+1 ..= current` otherwise wipes the whole ring,
+        # and every id seen so far is accepted again
+        clears = []
+        for blk in b.rpo():
+            for s in b.stmts(blk):
+                if s["k"] == "assign" and any(e[0] == "index" for e in s["p"][1]) and s["rv"]["k"] == "use" and op_int(s["rv"]["op"]) == 0 and blk != 0:
+                    clears.append((blk, loc(s["sp"]), "element store"))
+        for (blk, c, t) in b.calls():
+            if c.method == "fill" and len(t["args"]) > 1 and op_int(t["args"][1]) == 0:
+                clears.append((blk, loc(t["sp"]), "range fill"))
+        for (blk, where_, how) in clears:
+            in_loop = b.innermost_loop(blk) is not None
+            guarded = False
+            for gb in b.rpo():
+                gt_ = b.term(gb)
+                if not gt_ or gt_["k"] != "switch":
+                    continue
+                cmp_ = const_cmp_of_switch(b, gb)
+                if cmp_ and cmp_[0] in ("Gt", "Ne", "Eq", "Lt", "Ge", "Le") and (op_int(cmp_[2]) in (0, 1) or op_int(cmp_[1]) in (0, 1)):
+                    v = cmp_[1] if op_int(cmp_[2]) is not None else cmp_[2]
+                    q = op_place(v)
+                    if q is not None and any(d_[0] == "assign" and d_[3]["rv"]["k"] == "bin" and d_[3]["rv"]["op"].startswith("Sub") for l_ in b.slice_back([q[0]], stop_call=lambda c_: True)[0] for d_ in b.defs().get(l_, [])):
+                        for tgt in {x for _, x in gt_["arms"]} | {gt_["otherwise"]}:
+                            if b.edge_dominates(gb, tgt, blk) and not all(b.edge_dominates(gb, t2, blk) for t2 in {x for _, x in gt_["arms"]} | {gt_["otherwise"]}):
+                                guarded = True
+            ctx.ob("F4", b.defp, f"ring-cleared-only-over-the-block-difference:{how.replace(' ', '-')}", where_, in_loop or guarded,
+                   "the ring is cleared inside the iteration over the block difference (or behind a test of that difference)" if (in_loop or guarded) else
+                   f"a {how} clears ring blocks outside any iteration over the block difference and without a test that the difference is non-zero: when the new id falls into the "
+                   "same block as the previous highest one, the range `old+1 ..= new` is empty, and expressed as a wrapped range it covers the whole ring - the filter forgets "
+                   "every id it has seen and accepts duplicates")
+        ctx.floor("F4", "ring-clearing sites in the filter", 1, len(clears))
         # ids are compared by subtracting from the larger one: the whole 64-bit range is legal (both call sites pass u64::MAX as the limit), so
         # *adding* a window or block constant to an id that came off the wire overflows for the last ids below u64::MAX - a panic in
         # overflow-checked builds, a wrapped sum (a fresh id judged stale, or a stale one fresh) otherwise
